@@ -1,6 +1,6 @@
 (* GENERATED on every check by harness/cmd/routes2coq from internal/api/router.go, read_only.go, v1/routes.go,
    v2/routes.go and the handlers' bodies of the working tree under test. Do not edit. *)
-(* 43 endpoints, 14 of them writers, 5 mounts; ReadOnly gate installed: true *)
+(* 42 endpoints, 13 of them writers, 5 mounts; ReadOnly gate installed: true *)
 From FL Require Import Router.Model.
 Local Open Scope string_scope.
 
@@ -39,23 +39,22 @@ Definition gen_routes : list node :=
         (* internal/api/v1/routes.go:42 *) Mount [Par "ledger"] [
           (* internal/api/v1/routes.go:52 *) Endpoint ["GET"] [Lit "_info"] {| h_name := "getLedgerInfo"; h_full := "/api/ledger/{ledger}/_info"; h_writes := [] |};
           (* internal/api/v1/routes.go:53 *) Endpoint ["GET"] [Lit "stats"] {| h_name := "getStats"; h_full := "/api/ledger/{ledger}/stats"; h_writes := [] |};
-          (* internal/api/v1/routes.go:54 *) Endpoint ["GET"] [Lit "accounts"; Par "address"; Lit "seen"] {| h_name := "composite-literal.handle"; h_full := "/api/ledger/{ledger}/accounts/{address}/seen"; h_writes := [WSaveMeta] |};
-          (* internal/api/v1/routes.go:55 *) Endpoint ["GET"] [Lit "logs"] {| h_name := "getLogs"; h_full := "/api/ledger/{ledger}/logs"; h_writes := [] |};
-          (* internal/api/v1/routes.go:58 *) Endpoint ["GET"] [Lit "accounts"] {| h_name := "getAccounts"; h_full := "/api/ledger/{ledger}/accounts"; h_writes := [] |};
-          (* internal/api/v1/routes.go:59 *) Endpoint ["HEAD"] [Lit "accounts"] {| h_name := "countAccounts"; h_full := "/api/ledger/{ledger}/accounts"; h_writes := [] |};
-          (* internal/api/v1/routes.go:60 *) Endpoint ["GET"] [Lit "accounts"; Par "address"] {| h_name := "getAccount"; h_full := "/api/ledger/{ledger}/accounts/{address}"; h_writes := [] |};
-          (* internal/api/v1/routes.go:61 *) Endpoint ["POST"] [Lit "accounts"; Par "address"; Lit "metadata"] {| h_name := "postAccountMetadata"; h_full := "/api/ledger/{ledger}/accounts/{address}/metadata"; h_writes := [WSaveMeta] |};
-          (* internal/api/v1/routes.go:62 *) Endpoint ["DELETE"] [Lit "accounts"; Par "address"; Lit "metadata"; Par "key"] {| h_name := "deleteAccountMetadata"; h_full := "/api/ledger/{ledger}/accounts/{address}/metadata/{key}"; h_writes := [WDeleteMeta] |};
-          (* internal/api/v1/routes.go:65 *) Endpoint ["GET"] [Lit "transactions"] {| h_name := "getTransactions"; h_full := "/api/ledger/{ledger}/transactions"; h_writes := [] |};
-          (* internal/api/v1/routes.go:66 *) Endpoint ["HEAD"] [Lit "transactions"] {| h_name := "countTransactions"; h_full := "/api/ledger/{ledger}/transactions"; h_writes := [] |};
-          (* internal/api/v1/routes.go:68 *) Endpoint ["POST"] [Lit "transactions"] {| h_name := "postTransaction"; h_full := "/api/ledger/{ledger}/transactions"; h_writes := [WCreate] |};
-          (* internal/api/v1/routes.go:69 *) Endpoint ["POST"] [Lit "transactions"; Lit "batch"] {| h_name := "func-literal"; h_full := "/api/ledger/{ledger}/transactions/batch"; h_writes := [] |};
-          (* internal/api/v1/routes.go:73 *) Endpoint ["GET"] [Lit "transactions"; Par "id"] {| h_name := "getTransaction"; h_full := "/api/ledger/{ledger}/transactions/{id}"; h_writes := [] |};
-          (* internal/api/v1/routes.go:74 *) Endpoint ["POST"] [Lit "transactions"; Par "id"; Lit "revert"] {| h_name := "revertTransaction"; h_full := "/api/ledger/{ledger}/transactions/{id}/revert"; h_writes := [WRevert] |};
-          (* internal/api/v1/routes.go:75 *) Endpoint ["POST"] [Lit "transactions"; Par "id"; Lit "metadata"] {| h_name := "postTransactionMetadata"; h_full := "/api/ledger/{ledger}/transactions/{id}/metadata"; h_writes := [WSaveMeta] |};
-          (* internal/api/v1/routes.go:76 *) Endpoint ["DELETE"] [Lit "transactions"; Par "id"; Lit "metadata"; Par "key"] {| h_name := "deleteTransactionMetadata"; h_full := "/api/ledger/{ledger}/transactions/{id}/metadata/{key}"; h_writes := [WDeleteMeta] |};
-          (* internal/api/v1/routes.go:78 *) Endpoint ["GET"] [Lit "balances"] {| h_name := "getBalances"; h_full := "/api/ledger/{ledger}/balances"; h_writes := [] |};
-          (* internal/api/v1/routes.go:79 *) Endpoint ["GET"] [Lit "aggregate"; Lit "balances"] {| h_name := "getBalancesAggregated"; h_full := "/api/ledger/{ledger}/aggregate/balances"; h_writes := [] |}
+          (* internal/api/v1/routes.go:54 *) Endpoint ["GET"] [Lit "logs"] {| h_name := "getLogs"; h_full := "/api/ledger/{ledger}/logs"; h_writes := [] |};
+          (* internal/api/v1/routes.go:57 *) Endpoint ["GET"] [Lit "accounts"] {| h_name := "getAccounts"; h_full := "/api/ledger/{ledger}/accounts"; h_writes := [] |};
+          (* internal/api/v1/routes.go:58 *) Endpoint ["HEAD"] [Lit "accounts"] {| h_name := "countAccounts"; h_full := "/api/ledger/{ledger}/accounts"; h_writes := [] |};
+          (* internal/api/v1/routes.go:59 *) Endpoint ["GET"] [Lit "accounts"; Par "address"] {| h_name := "getAccount"; h_full := "/api/ledger/{ledger}/accounts/{address}"; h_writes := [] |};
+          (* internal/api/v1/routes.go:60 *) Endpoint ["POST"] [Lit "accounts"; Par "address"; Lit "metadata"] {| h_name := "postAccountMetadata"; h_full := "/api/ledger/{ledger}/accounts/{address}/metadata"; h_writes := [WSaveMeta] |};
+          (* internal/api/v1/routes.go:61 *) Endpoint ["DELETE"] [Lit "accounts"; Par "address"; Lit "metadata"; Par "key"] {| h_name := "deleteAccountMetadata"; h_full := "/api/ledger/{ledger}/accounts/{address}/metadata/{key}"; h_writes := [WDeleteMeta] |};
+          (* internal/api/v1/routes.go:64 *) Endpoint ["GET"] [Lit "transactions"] {| h_name := "getTransactions"; h_full := "/api/ledger/{ledger}/transactions"; h_writes := [] |};
+          (* internal/api/v1/routes.go:65 *) Endpoint ["HEAD"] [Lit "transactions"] {| h_name := "countTransactions"; h_full := "/api/ledger/{ledger}/transactions"; h_writes := [] |};
+          (* internal/api/v1/routes.go:67 *) Endpoint ["POST"] [Lit "transactions"] {| h_name := "postTransaction"; h_full := "/api/ledger/{ledger}/transactions"; h_writes := [WCreate] |};
+          (* internal/api/v1/routes.go:68 *) Endpoint ["POST"] [Lit "transactions"; Lit "batch"] {| h_name := "func-literal"; h_full := "/api/ledger/{ledger}/transactions/batch"; h_writes := [] |};
+          (* internal/api/v1/routes.go:72 *) Endpoint ["GET"] [Lit "transactions"; Par "id"] {| h_name := "getTransaction"; h_full := "/api/ledger/{ledger}/transactions/{id}"; h_writes := [] |};
+          (* internal/api/v1/routes.go:73 *) Endpoint ["POST"] [Lit "transactions"; Par "id"; Lit "revert"] {| h_name := "revertTransaction"; h_full := "/api/ledger/{ledger}/transactions/{id}/revert"; h_writes := [WRevert] |};
+          (* internal/api/v1/routes.go:74 *) Endpoint ["POST"] [Lit "transactions"; Par "id"; Lit "metadata"] {| h_name := "postTransactionMetadata"; h_full := "/api/ledger/{ledger}/transactions/{id}/metadata"; h_writes := [WSaveMeta] |};
+          (* internal/api/v1/routes.go:75 *) Endpoint ["DELETE"] [Lit "transactions"; Par "id"; Lit "metadata"; Par "key"] {| h_name := "deleteTransactionMetadata"; h_full := "/api/ledger/{ledger}/transactions/{id}/metadata/{key}"; h_writes := [WDeleteMeta] |};
+          (* internal/api/v1/routes.go:77 *) Endpoint ["GET"] [Lit "balances"] {| h_name := "getBalances"; h_full := "/api/ledger/{ledger}/balances"; h_writes := [] |};
+          (* internal/api/v1/routes.go:78 *) Endpoint ["GET"] [Lit "aggregate"; Lit "balances"] {| h_name := "getBalancesAggregated"; h_full := "/api/ledger/{ledger}/aggregate/balances"; h_writes := [] |}
         ]
       ]
     ]
